@@ -272,3 +272,41 @@ Theorem h2_meta_close_after_invalid_refuted :
   h2_meta_seq2 false (true, false) 65536 [bad; good] =
     [MErr (EStream 1 ErrCodeProtocol); MErr (EConn ErrCodeCompression)].
 Proof. cbv zeta. split; vm_compute; reflexivity. Qed.
+
+(* ---------- ErrorDetail is per frame ---------- *)
+Lemma read_event_detail_irrelevant dec d1 d2 mx ev :
+  read_event true dec d1 mx ev = read_event true dec d2 mx ev.
+Proof. destruct ev; reflexivity. Qed.
+
+(* over every sequence of header blocks and refused frames: what ErrorDetail() says after each
+   ReadFrame does not depend on what an earlier call left behind *)
+Theorem h2_error_detail_per_frame mx evs : forall dec d1 d2,
+  read_events true dec d1 mx evs = read_events true dec d2 mx evs.
+Proof.
+  induction evs as [|ev evs IH]; intros dec d1 d2; [reflexivity|].
+  cbn [read_events]. rewrite (read_event_detail_irrelevant dec d1 d2). reflexivity.
+Qed.
+
+(* a frame the frame parser refuses never has a detail; a header block has one iff it ends in a stream error *)
+Theorem h2_error_detail_spec dec d mx ev o st : read_event true dec d mx ev = (o, st) ->
+  snd o = match ev, fst o with
+          | EvRejected _, _ => false
+          | EvBlock _ _ _ _, MErr (EStream _ _) => true
+          | EvBlock _ _ _ _, _ => false
+          end.
+Proof.
+  destruct ev as [sid su torn frags|sid]; cbn [read_event].
+  - destruct (h2_meta_run2 true dec mx sid su torn frags) as [res dec']. intro H. inversion H; subst. cbn.
+    destruct res as [|[]]; reflexivity.
+  - intro H. inversion H; subst. reflexivity.
+Qed.
+
+(* with the reset moved into checkFrameOrder, the refused frame that follows a malformed block
+   inherits its detail *)
+Theorem h2_error_detail_reset_late_refuted :
+  let bad := EvBlock 1 false false [(10, [(bs ":status", bs "200"); (bs "X-Upper", bs "v")])] in
+  read_events true (true, false) false 65536 [bad; EvRejected 3] =
+    [(MErr (EStream 1 ErrCodeProtocol), true); (MErr (EStream 3 ErrCodeProtocol), false)] /\
+  read_events false (true, false) false 65536 [bad; EvRejected 3] =
+    [(MErr (EStream 1 ErrCodeProtocol), true); (MErr (EStream 3 ErrCodeProtocol), true)].
+Proof. cbv zeta. split; vm_compute; reflexivity. Qed.
